@@ -14,7 +14,11 @@ Code modelled, branch by branch:
   * openapi3filter/validate_request.go `ValidateRequestBody`             → `validateRequestBody`
   * openapi3/schema.go `visitJSON` / `visitJSONObject` … with `VisitAsRequest()` on the schema fragment `RS`
         (type, nullable, readOnly, writeOnly, minLength, maximum, properties, required,
-         additionalProperties: true|false, items)                        → `visit`
+         additionalProperties: true|false, items, not, oneOf, anyOf, allOf) → `visit` = `visitV` (own keywords,
+         recursion over the value) over `comp` (visitNotOperation / visitXOFOperations, recursion over the schema)
+  * property declarations inside allOf/anyOf/oneOf members of a form schema (`decodeSchemaConstructs`)
+        → `flatDecls`, `mergeKV`; composition keywords inside a property schema (`decodeValue`) → `decodePropC`
+  * `MultipartBodyDecoder` against schemas with `allOf`                    → `partDecl`, `assemblyProps`
 
 Specification side (written from the property text, not from the control flow): `candidates`/`firstSome`
 (precedence list), `SatReq` (+ executable `satReqB`), `specFormProp(s)`/`encodeForm` (what form fields encode,
@@ -96,26 +100,36 @@ inductive V
   | obj (kvs : List (Str × V))
   deriving Repr
 
+/-- the schema fragment: own keywords plus the composition keywords `not`, `oneOf`, `anyOf`, `allOf` -/
 inductive RS
   | mk (ty : Option Ty) (nullable ro wo : Bool) (minLen : Nat) (max : Option Int)
        (props : List (Str × RS)) (required : List Str) (addl : Option Bool) (items : Option RS)
+       (nt : Option RS) (oneOf anyOf allOf : List RS)
   deriving Repr
 
 namespace RS
-def ty : RS → Option Ty | mk t _ _ _ _ _ _ _ _ _ => t
-def nullable : RS → Bool | mk _ n _ _ _ _ _ _ _ _ => n
-def ro : RS → Bool | mk _ _ r _ _ _ _ _ _ _ => r
-def wo : RS → Bool | mk _ _ _ w _ _ _ _ _ _ => w
-def minLen : RS → Nat | mk _ _ _ _ m _ _ _ _ _ => m
-def max : RS → Option Int | mk _ _ _ _ _ m _ _ _ _ => m
-def props : RS → List (Str × RS) | mk _ _ _ _ _ _ p _ _ _ => p
-def required : RS → List Str | mk _ _ _ _ _ _ _ r _ _ => r
-def addl : RS → Option Bool | mk _ _ _ _ _ _ _ _ a _ => a
-def items : RS → Option RS | mk _ _ _ _ _ _ _ _ _ i => i
+def ty : RS → Option Ty | mk t _ _ _ _ _ _ _ _ _ _ _ _ _ => t
+def nullable : RS → Bool | mk _ n _ _ _ _ _ _ _ _ _ _ _ _ => n
+def ro : RS → Bool | mk _ _ r _ _ _ _ _ _ _ _ _ _ _ => r
+def wo : RS → Bool | mk _ _ _ w _ _ _ _ _ _ _ _ _ _ => w
+def minLen : RS → Nat | mk _ _ _ _ m _ _ _ _ _ _ _ _ _ => m
+def max : RS → Option Int | mk _ _ _ _ _ m _ _ _ _ _ _ _ _ => m
+def props : RS → List (Str × RS) | mk _ _ _ _ _ _ p _ _ _ _ _ _ _ => p
+def required : RS → List Str | mk _ _ _ _ _ _ _ r _ _ _ _ _ _ => r
+def addl : RS → Option Bool | mk _ _ _ _ _ _ _ _ a _ _ _ _ _ => a
+def items : RS → Option RS | mk _ _ _ _ _ _ _ _ _ i _ _ _ _ => i
+def nt : RS → Option RS | mk _ _ _ _ _ _ _ _ _ _ n _ _ _ => n
+def oneOf : RS → List RS | mk _ _ _ _ _ _ _ _ _ _ _ o _ _ => o
+def anyOf : RS → List RS | mk _ _ _ _ _ _ _ _ _ _ _ _ a _ => a
+def allOf : RS → List RS | mk _ _ _ _ _ _ _ _ _ _ _ _ _ a => a
+/-- a schema without composition keywords -/
+def leaf (ty : Option Ty) (nullable ro wo : Bool) (minLen : Nat) (max : Option Int)
+    (props : List (Str × RS)) (required : List Str) (addl : Option Bool) (items : Option RS) : RS :=
+  mk ty nullable ro wo minLen max props required addl items none [] [] []
 end RS
 
 instance : Inhabited V := ⟨.null⟩
-instance : Inhabited RS := ⟨RS.mk none false false false 0 none [] [] none none⟩
+instance : Inhabited RS := ⟨RS.leaf none false false false 0 none [] [] none none⟩
 
 def V.isNull : V → Bool | .null => true | _ => false
 
@@ -142,107 +156,241 @@ def isRO (p : Option RS) : Bool := match p with | some s => s.ro | none => false
 
 /-- the request-side pre-loop of `visitJSONObject`: a readOnly property whose key is **present** in the value
 (`_, present := value[propName]`; since repair e80060c also when its value is null) is an error unless
-read-only validation is disabled -/
-def roLoopOK (exro : Bool) (props : List (Str × RS)) (kvs : List (Str × V)) : Bool :=
+read-only validation is disabled. `ks` = the keys of the value. -/
+def roLoopOK (exro : Bool) (props : List (Str × RS)) (ks : List Str) : Bool :=
   (keys props).all fun k =>      -- `for _, propName := range sortedNames { propSchema := schema.Properties[propName] …`
-    !(isRO (lookup k props) && !exro) || (lookup k kvs).isNone
+    !(isRO (lookup k props) && !exro) || !ks.contains k
 
-/-- the `required` loop: a missing key is an error unless the property is declared readOnly (request side;
-this exemption does not look at the exclusion option) -/
-def requiredOK (s : RS) (kvs : List (Str × V)) : Bool :=
-  s.required.all fun k => (keys kvs).contains k || isRO (lookup k s.props)
+/-- the `required` loop: a missing key is an error unless the property is declared readOnly *in this schema*
+(request side; this exemption does not look at the exclusion option) -/
+def requiredOK (s : RS) (ks : List Str) : Bool :=
+  s.required.all fun k => ks.contains k || isRO (lookup k s.props)
 
-/-- `IsEmpty() && !hasSubSchemas()` on the fragment -/
+/-- one of `oneOf` / `anyOf` / `allOf` is present (`visitedOneOf || visitedAnyOf || visitedAllOf`) -/
+def hasComp (s : RS) : Bool := !(s.oneOf.isEmpty && s.anyOf.isEmpty && s.allOf.isEmpty)
+
+/-- `!hasSubSchemas() && IsEmpty()` on the fragment -/
 def isEmptyLeaf (s : RS) : Bool :=
   s.ty.isNone && !s.nullable && !s.ro && !s.wo && s.minLen == 0 && s.max.isNone &&
-  s.required.isEmpty && s.addl != some false && s.props.isEmpty && s.items.isNone
+  s.required.isEmpty && s.addl != some false && s.props.isEmpty && s.items.isNone &&
+  s.nt.isNone && s.oneOf.isEmpty && s.anyOf.isEmpty && s.allOf.isEmpty
+
+/-! #### `visitJSON`: composition layer (recursion over the schema) and own keywords (recursion over the value)
+
+`visitJSON` of one schema on one value: null pre-check → shortcut for empty schemas → `not` → `oneOf` (exactly
+one member accepts) → `anyOf` (some member accepts) → `allOf` (every member accepts) → "null after a
+composition needs no own keywords" → own keywords (type-specific visitor). Members are visited with the same
+settings (request mode, exclusion option): that is why `own` is one function for the whole layer. -/
+
+mutual
+/-- `visitJSON` of schema and sub-schemas on ONE value: `isNull` tells whether the value is null, `own s` is the
+verdict of the type-specific visitor of `s` on the value (`visitJSONNull` for null: `s.nullable`) -/
+def comp (isNull : Bool) (own : RS → Bool) : RS → Bool
+  | .mk ty nullable ro wo ml mx props req addl items nt oneOf anyOf allOf =>
+    if isNull && nullable then true
+    else if isEmptyLeaf (.mk ty nullable ro wo ml mx props req addl items nt oneOf anyOf allOf) then !isNull
+    else compNot isNull own nt &&
+         (oneOf.isEmpty || compCount isNull own oneOf == 1) &&
+         (anyOf.isEmpty || compAny isNull own anyOf) &&
+         compAll isNull own allOf &&
+         (if isNull && !(oneOf.isEmpty && anyOf.isEmpty && allOf.isEmpty) then true
+          else own (.mk ty nullable ro wo ml mx props req addl items nt oneOf anyOf allOf))
+/-- `visitNotOperation` -/
+def compNot (isNull : Bool) (own : RS → Bool) : Option RS → Bool
+  | none => true
+  | some n => !comp isNull own n
+/-- number of accepting `oneOf` members -/
+def compCount (isNull : Bool) (own : RS → Bool) : List RS → Nat
+  | [] => 0
+  | x :: r => (if comp isNull own x then 1 else 0) + compCount isNull own r
+def compAny (isNull : Bool) (own : RS → Bool) : List RS → Bool
+  | [] => false
+  | x :: r => comp isNull own x || compAny isNull own r
+def compAll (isNull : Bool) (own : RS → Bool) : List RS → Bool
+  | [] => true
+  | x :: r => comp isNull own x && compAll isNull own r
+end
+
+/-! own keywords per kind of value; `fs` are the visitors of the value's children (functions of the schema
+they are visited with) -/
+def ownBool (s : RS) : Bool := permits s.ty .boolean
+def ownInt (n : Int) (s : RS) : Bool := numTypeOK s.ty true && maxOK s.max n false
+def ownHalf (n : Int) (s : RS) : Bool := numTypeOK s.ty false && maxOK s.max n true
+def ownStr (t : Str) (s : RS) : Bool := permits s.ty .string && (s.minLen == 0 || decide (s.minLen ≤ t.length))
+def ownArr (fs : List (RS → Bool)) (s : RS) : Bool :=
+  permits s.ty .array && (match s.items with | none => true | some it => fs.all fun f => f it)
+/-- the loop over the value's keys: declared property → its schema; else additionalProperties -/
+def fieldsOK (s : RS) (fs : List (Str × (RS → Bool))) : Bool :=
+  fs.all fun kf => match lookup kf.1 s.props with | some p => kf.2 p | none => s.addl != some false
+def ownObj (exro : Bool) (fs : List (Str × (RS → Bool))) (s : RS) : Bool :=
+  permits s.ty .object && roLoopOK exro s.props (keys fs) && fieldsOK s fs && requiredOK s (keys fs)
 
 mutual
 /-- `Schema.visitJSON` with `VisitAsRequest()`; `exro` = `DisableReadOnlyValidation()`. `true` = nil error. -/
-def visit (exro : Bool) (s : RS) : V → Bool
-  | .null => s.nullable
-  | .bool _ => isEmptyLeaf s || permits s.ty .boolean
-  | .int n => isEmptyLeaf s || (numTypeOK s.ty true && maxOK s.max n false)
-  | .half n => isEmptyLeaf s || (numTypeOK s.ty false && maxOK s.max n true)
-  | .str t => isEmptyLeaf s || (permits s.ty .string && (s.minLen == 0 || decide (s.minLen ≤ t.length)))
-  | .arr xs => isEmptyLeaf s ||
-      (permits s.ty .array && (match s.items with | none => true | some it => visitItems exro it xs))
-  | .obj kvs => isEmptyLeaf s ||
-      (permits s.ty .object && roLoopOK exro s.props kvs && visitFields exro s kvs && requiredOK s kvs)
-def visitItems (exro : Bool) (it : RS) : List V → Bool
-  | [] => true
-  | v :: r => visit exro it v && visitItems exro it r
-def visitFields (exro : Bool) (s : RS) : List (Str × V) → Bool
-  | [] => true
-  | (k, v) :: r =>
-    (match lookup k s.props with
-     | some p => visit exro p v
-     | none => s.addl != some false) && visitFields exro s r
+def visitV (exro : Bool) : V → RS → Bool
+  | .null => fun s => comp true (fun s' => s'.nullable) s
+  | .bool _ => fun s => comp false ownBool s
+  | .int n => fun s => comp false (ownInt n) s
+  | .half n => fun s => comp false (ownHalf n) s
+  | .str t => fun s => comp false (ownStr t) s
+  | .arr xs => fun s => comp false (ownArr (visitItems exro xs)) s
+  | .obj kvs => fun s => comp false (ownObj exro (visitFields exro kvs)) s
+def visitItems (exro : Bool) : List V → List (RS → Bool)
+  | [] => []
+  | v :: r => visitV exro v :: visitItems exro r
+def visitFields (exro : Bool) : List (Str × V) → List (Str × (RS → Bool))
+  | [] => []
+  | (k, v) :: r => (k, visitV exro v) :: visitFields exro r
 end
+
+def visit (exro : Bool) (s : RS) (v : V) : Bool := visitV exro v s
 
 mutual
 /-- the schema with every `writeOnly` flag cleared (used to state that write-only plays no role in requests) -/
 def RS.clearWO : RS → RS
-  | .mk t n r _ ml mx props req a items => .mk t n r false ml mx (clearWOProps props) req a (clearWOOpt items)
+  | .mk t n r _ ml mx props req a items nt oneOf anyOf allOf =>
+    .mk t n r false ml mx (clearWOProps props) req a (clearWOOpt items) (clearWOOpt nt)
+      (clearWOList oneOf) (clearWOList anyOf) (clearWOList allOf)
 def clearWOProps : List (Str × RS) → List (Str × RS)
   | [] => []
   | (k, p) :: r => (k, p.clearWO) :: clearWOProps r
 def clearWOOpt : Option RS → Option RS
   | none => none
   | some s => some s.clearWO
+def clearWOList : List RS → List RS
+  | [] => []
+  | s :: r => s.clearWO :: clearWOList r
 end
 
 /-! ### Request-side satisfaction (spec; written from the property text) -/
 
 mutual
-/-- `SatReq exro s v`: value `v` satisfies schema `s` read as a request. Read-only properties must be absent
-(unless the exclusion option `exro` is set) and need not be present even if required; write-only
-properties are ordinary. -/
-def SatReq (exro : Bool) (s : RS) : V → Prop
-  | .null => s.nullable = true
-  | .bool _ => s.ty = none ∨ s.ty = some .boolean
-  | .int n => (s.ty = none ∨ s.ty = some .integer ∨ s.ty = some .number) ∧ (∀ m, s.max = some m → n ≤ m)
-  | .half n => (s.ty = none ∨ s.ty = some .number) ∧ (∀ m, s.max = some m → n < m)
-  | .str t => (s.ty = none ∨ s.ty = some .string) ∧ s.minLen ≤ t.length
-  | .arr xs => (s.ty = none ∨ s.ty = some .array) ∧ (∀ it, s.items = some it → SatItems exro it xs)
-  | .obj kvs => (s.ty = none ∨ s.ty = some .object) ∧ SatFields exro s kvs ∧
-      (∀ k ∈ s.required, k ∈ keys kvs ∨ isRO (lookup k s.props) = true) ∧
-      (exro = false → ∀ k, isRO (lookup k s.props) = true → k ∉ keys kvs)
-def SatItems (exro : Bool) (it : RS) : List V → Prop
+/-- composition clauses of the spec on ONE value: `Own s` = the value satisfies the own keywords of `s`.
+A non-null value satisfies `s` iff it satisfies the own keywords, is rejected by `not`, is accepted by exactly
+one `oneOf` member, some `anyOf` member and every `allOf` member. `null` is admitted where the schema is
+nullable, or (the library's documented reading of OAS 3.0) where compositions are present and admit it. -/
+def SatC (isNull : Bool) (Own : RS → Prop) : RS → Prop
+  | .mk ty nullable ro wo ml mx props req addl items nt oneOf anyOf allOf =>
+    if isNull then
+      nullable = true ∨
+        ((oneOf ≠ [] ∨ anyOf ≠ [] ∨ allOf ≠ []) ∧
+          SatNot isNull Own nt ∧ (oneOf = [] ∨ SatOne isNull Own oneOf) ∧ (anyOf = [] ∨ SatAny isNull Own anyOf) ∧
+          SatAll isNull Own allOf)
+    else
+      SatNot isNull Own nt ∧ (oneOf = [] ∨ SatOne isNull Own oneOf) ∧ (anyOf = [] ∨ SatAny isNull Own anyOf) ∧
+      SatAll isNull Own allOf ∧ Own (.mk ty nullable ro wo ml mx props req addl items nt oneOf anyOf allOf)
+def SatNot (isNull : Bool) (Own : RS → Prop) : Option RS → Prop
+  | none => True
+  | some n => ¬ SatC isNull Own n
+def SatNone (isNull : Bool) (Own : RS → Prop) : List RS → Prop
   | [] => True
-  | v :: r => SatReq exro it v ∧ SatItems exro it r
-def SatFields (exro : Bool) (s : RS) : List (Str × V) → Prop
+  | x :: r => ¬ SatC isNull Own x ∧ SatNone isNull Own r
+/-- exactly one member is satisfied -/
+def SatOne (isNull : Bool) (Own : RS → Prop) : List RS → Prop
+  | [] => False
+  | x :: r => (SatC isNull Own x ∧ SatNone isNull Own r) ∨ (¬ SatC isNull Own x ∧ SatOne isNull Own r)
+def SatAny (isNull : Bool) (Own : RS → Prop) : List RS → Prop
+  | [] => False
+  | x :: r => SatC isNull Own x ∨ SatAny isNull Own r
+def SatAll (isNull : Bool) (Own : RS → Prop) : List RS → Prop
   | [] => True
-  | (k, v) :: r =>
-    (match lookup k s.props with
-     | some p => SatReq exro p v
-     | none => s.addl ≠ some false) ∧ SatFields exro s r
+  | x :: r => SatC isNull Own x ∧ SatAll isNull Own r
+end
+
+def OwnBool (s : RS) : Prop := s.ty = none ∨ s.ty = some .boolean
+def OwnInt (n : Int) (s : RS) : Prop :=
+  (s.ty = none ∨ s.ty = some .integer ∨ s.ty = some .number) ∧ (∀ m, s.max = some m → n ≤ m)
+def OwnHalf (n : Int) (s : RS) : Prop := (s.ty = none ∨ s.ty = some .number) ∧ (∀ m, s.max = some m → n < m)
+def OwnStr (t : Str) (s : RS) : Prop := (s.ty = none ∨ s.ty = some .string) ∧ s.minLen ≤ t.length
+def OwnArr (Fs : List (RS → Prop)) (s : RS) : Prop :=
+  (s.ty = none ∨ s.ty = some .array) ∧ (∀ it, s.items = some it → ∀ F ∈ Fs, F it)
+def FieldsSat (s : RS) (Fs : List (Str × (RS → Prop))) : Prop :=
+  ∀ kF ∈ Fs, match lookup kF.1 s.props with | some p => kF.2 p | none => s.addl ≠ some false
+/-- own keywords of an object schema read as a request: read-only properties must be absent (unless the
+exclusion option `exro` is set) and need not be present even if required; write-only properties are ordinary -/
+def OwnObj (exro : Bool) (Fs : List (Str × (RS → Prop))) (s : RS) : Prop :=
+  (s.ty = none ∨ s.ty = some .object) ∧ FieldsSat s Fs ∧
+  (∀ k ∈ s.required, k ∈ keys Fs ∨ isRO (lookup k s.props) = true) ∧
+  (exro = false → ∀ k, isRO (lookup k s.props) = true → k ∉ keys Fs)
+
+mutual
+/-- `SatV exro v s`: value `v` satisfies schema `s` read as a request -/
+def SatV (exro : Bool) : V → RS → Prop
+  | .null => fun s => SatC true (fun _ => False) s
+  | .bool _ => fun s => SatC false OwnBool s
+  | .int n => fun s => SatC false (OwnInt n) s
+  | .half n => fun s => SatC false (OwnHalf n) s
+  | .str t => fun s => SatC false (OwnStr t) s
+  | .arr xs => fun s => SatC false (OwnArr (SatItems exro xs)) s
+  | .obj kvs => fun s => SatC false (OwnObj exro (SatFields exro kvs)) s
+def SatItems (exro : Bool) : List V → List (RS → Prop)
+  | [] => []
+  | v :: r => SatV exro v :: SatItems exro r
+def SatFields (exro : Bool) : List (Str × V) → List (Str × (RS → Prop))
+  | [] => []
+  | (k, v) :: r => (k, SatV exro v) :: SatFields exro r
+end
+
+def SatReq (exro : Bool) (s : RS) (v : V) : Prop := SatV exro v s
+
+mutual
+/-- executable twin of `SatC` (no shortcuts, clause by clause) -/
+def satCB (isNull : Bool) (own : RS → Bool) : RS → Bool
+  | .mk ty nullable ro wo ml mx props req addl items nt oneOf anyOf allOf =>
+    if isNull then
+      nullable ||
+        (!(oneOf.isEmpty && anyOf.isEmpty && allOf.isEmpty) &&
+          satNotB isNull own nt && (oneOf.isEmpty || satCountB isNull own oneOf == 1) &&
+          (anyOf.isEmpty || satAnyB isNull own anyOf) && satAllB isNull own allOf)
+    else
+      satNotB isNull own nt && (oneOf.isEmpty || satCountB isNull own oneOf == 1) &&
+      (anyOf.isEmpty || satAnyB isNull own anyOf) && satAllB isNull own allOf &&
+      own (.mk ty nullable ro wo ml mx props req addl items nt oneOf anyOf allOf)
+def satNotB (isNull : Bool) (own : RS → Bool) : Option RS → Bool
+  | none => true
+  | some n => !satCB isNull own n
+def satCountB (isNull : Bool) (own : RS → Bool) : List RS → Nat
+  | [] => 0
+  | x :: r => (if satCB isNull own x then 1 else 0) + satCountB isNull own r
+def satAnyB (isNull : Bool) (own : RS → Bool) : List RS → Bool
+  | [] => false
+  | x :: r => satCB isNull own x || satAnyB isNull own r
+def satAllB (isNull : Bool) (own : RS → Bool) : List RS → Bool
+  | [] => true
+  | x :: r => satCB isNull own x && satAllB isNull own r
 end
 
 mutual
-/-- executable twin of `SatReq` (the oracle of the correspondence run) -/
-def satReqB (exro : Bool) (s : RS) : V → Bool
-  | .null => s.nullable
-  | .bool _ => s.ty == none || s.ty == some .boolean
-  | .int n => (s.ty == none || s.ty == some .integer || s.ty == some .number) &&
-      (match s.max with | none => true | some m => decide (n ≤ m))
-  | .half n => (s.ty == none || s.ty == some .number) &&
-      (match s.max with | none => true | some m => decide (n < m))
-  | .str t => (s.ty == none || s.ty == some .string) && decide (s.minLen ≤ t.length)
-  | .arr xs => (s.ty == none || s.ty == some .array) &&
-      (match s.items with | none => true | some it => satItemsB exro it xs)
-  | .obj kvs => (s.ty == none || s.ty == some .object) && satFieldsB exro s kvs &&
-      (s.required.all fun k => (keys kvs).contains k || isRO (lookup k s.props)) &&
-      (exro || (keys s.props).all fun k => !isRO (lookup k s.props) || !(keys kvs).contains k)
-def satItemsB (exro : Bool) (it : RS) : List V → Bool
-  | [] => true
-  | v :: r => satReqB exro it v && satItemsB exro it r
-def satFieldsB (exro : Bool) (s : RS) : List (Str × V) → Bool
-  | [] => true
-  | (k, v) :: r =>
-    (match lookup k s.props with
-     | some p => satReqB exro p v
-     | none => s.addl != some false) && satFieldsB exro s r
+/-- executable twin of `SatV` (the oracle of the correspondence run) -/
+def satVB (exro : Bool) : V → RS → Bool
+  | .null => fun s => satCB true (fun _ => false) s
+  | .bool _ => fun s => satCB false ownBool s
+  | .int n => fun s => satCB false (ownInt n) s
+  | .half n => fun s => satCB false (ownHalf n) s
+  | .str t => fun s => satCB false (ownStr t) s
+  | .arr xs => fun s => satCB false (ownArr (satItemsB exro xs)) s
+  | .obj kvs => fun s => satCB false (ownObj exro (satFieldsB exro kvs)) s
+def satItemsB (exro : Bool) : List V → List (RS → Bool)
+  | [] => []
+  | v :: r => satVB exro v :: satItemsB exro r
+def satFieldsB (exro : Bool) : List (Str × V) → List (Str × (RS → Bool))
+  | [] => []
+  | (k, v) :: r => (k, satVB exro v) :: satFieldsB exro r
+end
+
+def satReqB (exro : Bool) (s : RS) (v : V) : Bool := satVB exro v s
+
+mutual
+/-- a structural measure over the composition keywords; its generated induction principle is the induction
+over "schema and composition members" used by the lemmas -/
+def cdepth : RS → Nat
+  | .mk _ _ _ _ _ _ _ _ _ _ nt oneOf anyOf allOf => 1 + cdepthO nt + cdepthL oneOf + cdepthL anyOf + cdepthL allOf
+def cdepthO : Option RS → Nat
+  | none => 0
+  | some s => cdepth s
+def cdepthL : List RS → Nat
+  | [] => 0
+  | s :: r => cdepth s + cdepthL r
 end
 
 /-! ### Decoders -/
@@ -452,6 +600,45 @@ def decodeFormProp (fields : List (Str × List Str)) (name : Str) (p : RS) (e : 
 def primTy (t : Option Ty) : Bool :=
   t == some .string || t == some .integer || t == some .number || t == some .boolean
 
+/-- the property schema itself carries a composition keyword -/
+def hasCompP (p : RS) : Bool := !(p.allOf.isEmpty && p.anyOf.isEmpty && p.oneOf.isEmpty && p.nt.isNone)
+
+mutual
+/-- `decodeValue` with its composition branches (in the code's order: allOf, anyOf, oneOf, not, type):
+`none` = error, `some .null` = nil value -/
+def decodePropC (fields : List (Str × List Str)) (name : Str) (e : Option Enc) : RS → Option V
+  | .mk ty n r w ml mx props req a items nt oneOf anyOf allOf =>
+    if !allOf.isEmpty then decAll fields name e allOf .null
+    else if !anyOf.isEmpty then some (decAny fields name e anyOf)
+    else if !oneOf.isEmpty then some (decOne fields name e oneOf .null)
+    else if nt.isSome then none          -- "not implemented: decoding 'not'"
+    else decodeFormProp fields name (.mk ty n r w ml mx props req a items nt oneOf anyOf allOf) e
+/-- allOf: every member decodes the same field; the loop stops at a nil value or an error; the LAST value counts -/
+def decAll (fields : List (Str × List Str)) (name : Str) (e : Option Enc) : List RS → V → Option V
+  | [], acc => some acc
+  | x :: r, _ =>
+    match decodePropC fields name e x with
+    | none => none
+    | some .null => some .null
+    | some v => decAll fields name e r v
+/-- anyOf: the first member with a non-nil value (errors are ignored) -/
+def decAny (fields : List (Str × List Str)) (name : Str) (e : Option Enc) : List RS → V
+  | [] => .null
+  | x :: r =>
+    match decodePropC fields name e x with
+    | none => decAny fields name e r
+    | some .null => decAny fields name e r
+    | some v => v
+/-- oneOf: the last member with a non-nil value (errors are ignored; one match is enough) -/
+def decOne (fields : List (Str × List Str)) (name : Str) (e : Option Enc) : List RS → V → V
+  | [], acc => acc
+  | x :: r, acc =>
+    match decodePropC fields name e x with
+    | none => decOne fields name e r acc
+    | some .null => decOne fields name e r acc
+    | some v => decOne fields name e r v
+end
+
 /-- the schema pre-check of `UrlencodedBodyDecoder` over the properties (any order: only the class of the
 outcome is observed) -/
 inductive Pre | ok | err | panic
@@ -472,10 +659,78 @@ def formPre : List (Str × RS) → Pre
 def decodeFormProps (fields : List (Str × List Str)) (encs : List (Str × Enc)) : List (Str × RS) → List (Str × V)
   | [] => []
   | (k, p) :: r =>
-    match decodeFormProp fields k p (lookup k encs) with
+    match decodePropC fields k (lookup k encs) p with
     | none => decodeFormProps fields encs r
     | some .null => decodeFormProps fields encs r
     | some v => (k, v) :: decodeFormProps fields encs r
+
+mutual
+/-- the property declarations in the order `decodeSchemaConstructs` meets them: the members of `allOf`, `anyOf`,
+`oneOf` first (recursively), then the schema's own properties; all with the same `encFn` -/
+def flatDecls : RS → List (Str × RS)
+  | .mk _ _ _ _ _ _ props _ _ _ _ oneOf anyOf allOf =>
+    flatDeclsL allOf ++ flatDeclsL anyOf ++ flatDeclsL oneOf ++ props
+def flatDeclsL : List RS → List (Str × RS)
+  | [] => []
+  | s :: r => flatDecls s ++ flatDeclsL r
+end
+
+mutual
+def V.beq : V → V → Bool
+  | .null, .null => true
+  | .bool a, .bool b => a == b
+  | .int a, .int b => a == b
+  | .half a, .half b => a == b
+  | .str a, .str b => a == b
+  | .arr xs, .arr ys => V.beqL xs ys
+  | .obj xs, .obj ys => V.beqKV xs ys
+  | _, _ => false
+def V.beqL : List V → List V → Bool
+  | [], [] => true
+  | x :: xs, y :: ys => V.beq x y && V.beqL xs ys
+  | _, _ => false
+def V.beqKV : List (Str × V) → List (Str × V) → Bool
+  | [], [] => true
+  | (k, x) :: xs, (k', y) :: ys => k == k' && V.beq x y && V.beqKV xs ys
+  | _, _ => false
+end
+
+/-- the object under construction: a name decoded twice must get the same value, else
+"conflicting values for property" (`none`) -/
+def mergeKV : List (Str × V) → Option (List (Str × V))
+  | [] => some []
+  | (k, v) :: r =>
+    match mergeKV r with
+    | none => none
+    | some m =>
+      match lookup k m with
+      | none => some ((k, v) :: m)
+      | some v' => if V.beq v v' then some m else none
+
+/-- a declaration without composition keywords that the model of `decodeValue` covers: not an object, an array
+only of primitives -/
+def declOK (p : RS) : Bool :=
+  !hasCompP p &&
+  !tyIs p.ty .object && (!tyIs p.ty .array || (match p.items with | some it => primTy it.ty | none => false))
+
+mutual
+/-- … or a composition of such declarations (property-level allOf / anyOf / oneOf / not, any depth) -/
+def declOKC : RS → Bool
+  | .mk ty n r w ml mx props req a items nt oneOf anyOf allOf =>
+    if !(allOf.isEmpty && anyOf.isEmpty && oneOf.isEmpty && nt.isNone) then
+      declOKL allOf && declOKL anyOf && declOKL oneOf
+    else declOK (.mk ty n r w ml mx props req a items nt oneOf anyOf allOf)
+def declOKL : List RS → Bool
+  | [] => true
+  | x :: r => declOKC x && declOKL r
+end
+
+/-- two declarations of one name whose Go values could differ although the model's values agree
+(`int64` from `integer` vs `float64` from `number`): outside the model -/
+def numClash (decls : List (Str × RS)) : Bool :=
+  decls.any fun (k, p) => decls.any fun (k', p') =>
+    k == k' && ((p.ty == some .integer && p'.ty == some .number) ||
+                (itemTy p == some .integer && itemTy p' == some .number))
 
 /-- `UrlencodedBodyDecoder` -/
 def decodeForm (s : RS) (encs : List (Str × Enc)) (form : Option (List (Str × List Str))) : Dec :=
@@ -486,7 +741,11 @@ def decodeForm (s : RS) (encs : List (Str × Enc)) (form : Option (List (Str × 
   | .ok =>
     match form with
     | none => .err
-    | some fields => .val (.obj (decodeFormProps fields encs s.props))
+    | some fields =>
+      if !(flatDecls s).all (fun kp => declOKC kp.2) || numClash (flatDecls s) then .unmodelled else
+      match mergeKV (decodeFormProps fields encs (flatDecls s)) with
+      | none => .err
+      | some o => .val (.obj o)
 
 /-- decoding of one part: `decodeBody(part, part.Header, …)`; a part without Content-Type is text/plain -/
 def decodePart (reg : List (Str × DecK)) (p : Part) : Dec :=
@@ -495,16 +754,27 @@ def decodePart (reg : List (Str × DecK)) (p : Part) : Dec :=
   | none => .err
   | some k => decodeSimple k p.text p.json
 
+/-- is a part name declared? `MultipartBodyDecoder`: with `allOf` the members' own properties are searched and
+a miss is an error; without, the schema's properties, then additionalProperties (true → skip the part) -/
+inductive PartDecl | found | skip | undefined
+  deriving DecidableEq, Repr
+
+def partDecl (s : RS) (name : Str) : PartDecl :=
+  if !s.allOf.isEmpty then
+    (if s.allOf.any (fun m => (lookup name m.props).isSome) then .found else .undefined)
+  else
+    match lookup name s.props with
+    | some _ => .found
+    | none => (match s.addl with | some true => .skip | _ => .undefined)
+
 /-- first loop of `MultipartBodyDecoder`: every part is looked up and decoded; `none` = error -/
 def collectParts (reg : List (Str × DecK)) (s : RS) : List Part → Option (List (Str × V)) ⊕ Unit
   | [] => .inl (some [])
   | p :: r =>
-    match lookup p.name s.props with
-    | none =>
-      (match s.addl with
-       | some true => collectParts reg s r            -- additionalProperties: true → skip the part
-       | _ => .inl none)                              -- false, or neither flag nor schema → "undefined"
-    | some _ =>
+    match partDecl s p.name with
+    | .skip => collectParts reg s r
+    | .undefined => .inl none
+    | .found =>
       match decodePart reg p with
       | .val v =>
         (match collectParts reg s r with
@@ -512,6 +782,15 @@ def collectParts (reg : List (Str × DecK)) (s : RS) : List Part → Option (Lis
          | o => o)
       | .err => .inl none
       | _ => .inr ()
+
+/-- a Go map built by successive assignment: the last declaration of a name wins -/
+def dedupLast : List (Str × RS) → List (Str × RS)
+  | [] => []
+  | (k, p) :: r => if (keys r).contains k then dedupLast r else (k, p) :: dedupLast r
+
+/-- `allTheProperties`: with `allOf` the members' properties, else the schema's own -/
+def assemblyProps (s : RS) : List (Str × RS) :=
+  if !s.allOf.isEmpty then dedupLast (s.allOf.flatMap fun m => m.props) else s.props
 
 /-- all collected values of one name, in order -/
 def valuesOf (name : Str) (l : List (Str × V)) : List V :=
@@ -525,7 +804,7 @@ def assemble (vals : List (Str × V)) : List (Str × RS) → List (Str × V)
     | [] => assemble vals r
     | v :: vs => (k, if tyIs p.ty .array then .arr (v :: vs) else v) :: assemble vals r
 
-/-- `MultipartBodyDecoder` (schemas without allOf / additionalProperties schema) -/
+/-- `MultipartBodyDecoder` (schemas without an additionalProperties *schema*) -/
 def decodeMultipart (reg : List (Str × DecK)) (s : RS) (parts : Option (List Part)) : Dec :=
   if !tyIs s.ty .object then .err else
   match parts with
@@ -533,7 +812,7 @@ def decodeMultipart (reg : List (Str × DecK)) (s : RS) (parts : Option (List Pa
   | some ps =>
     match collectParts reg s ps with
     | .inl none => .err
-    | .inl (some vals) => .val (.obj (assemble vals s.props))
+    | .inl (some vals) => .val (.obj (assemble vals (assemblyProps s)))
     | .inr _ => .unmodelled
 
 /-- `decodeBody`: the decoder is chosen by the *request's* Content-Type without parameters -/
@@ -622,10 +901,21 @@ def specFormProp (fields : List (Str × List Str)) (name : Str) (p : RS) (e : Op
     | some t => if v0 = [] then some none else (encodesPrim t v0).map some
       -- an empty text is "no value": the library's documented convention (`parsePrimitive` returns nil for "")
 
+/-- a declaration whose property schema is itself a composition (a union / intersection of types) has no
+type-directed reading in the property text: there the specification takes the decoder's own value (this part
+of the urlencoded decoder is tied to the code by the differential run only) -/
+def specDecl (fields : List (Str × List Str)) (name : Str) (p : RS) (e : Option Enc) : Option (Option V) :=
+  if hasCompP p then
+    (match decodePropC fields name e p with
+     | none => some none
+     | some .null => some none
+     | some v => some (some v))
+  else specFormProp fields name p e
+
 def specFormProps (fields : List (Str × List Str)) (encs : List (Str × Enc)) : List (Str × RS) → Option (List (Str × V))
   | [] => some []
   | (k, p) :: r =>
-    match specFormProp fields k p (lookup k encs), specFormProps fields encs r with
+    match specDecl fields k p (lookup k encs), specFormProps fields encs r with
     | some none, some l => some l
     | some (some v), some l => some ((k, v) :: l)
     | _, _ => none
@@ -700,6 +990,7 @@ def hasTy (t : Ty) : V → Bool
 /-- `v` can be written for property `p` under encoding `e`: typed like the property, non-empty text, and —
 for a non-exploded array — no item text contains the delimiter (the `Encodable` side condition) -/
 def FormEncodable (p : RS) (e : Option Enc) (v : V) : Prop :=
+  hasCompP p = false ∧
   match p.ty with
   | some .array =>
     ∃ it t vs ts, p.items = some it ∧ it.ty = some t ∧ primTy (some t) = true ∧ v = .arr vs ∧ vs ≠ [] ∧
@@ -718,7 +1009,7 @@ def specDecode (reg : List (Str × DecK)) (ct : Str) (s : RS) (encs : List (Str 
   | some .urlencoded =>
     if tyIs s.ty .object && formPre s.props == .ok then
       match b.form with
-      | some fields => (specFormProps fields encs s.props).map .obj
+      | some fields => ((specFormProps fields encs (flatDecls s)).bind mergeKV).map .obj
       | none => none
     else none
   | some .multipart =>
@@ -750,7 +1041,7 @@ def acceptB (reg : List (Str × DecK)) (rb : ReqBody) (ct : Str) (b : BodyIn) (e
 /-- class `FormFieldUnparsable` (finding #20 / F-C06-1): a declared property has a field whose text is not a
 value of the declared type; the decoder drops the property (`continue` on error) -/
 def formUnparsable (fields : List (Str × List Str)) (encs : List (Str × Enc)) (props : List (Str × RS)) : Bool :=
-  props.any fun (k, p) => (specFormProp fields k p (lookup k encs)).isNone
+  props.any fun (k, p) => (specDecl fields k p (lookup k encs)).isNone
 
 /-- well-formed per-property encodings: a style other than `form` only on array properties and only
 `spaceDelimited` / `pipeDelimited` (what `Encoding.Validate` admits for arrays besides deepObject) -/
@@ -773,12 +1064,12 @@ def formRun (reg : List (Str × DecK)) (rb : ReqBody) (ct : Str) (b : BodyIn) :
 
 def exclFormUnparsable (reg : List (Str × DecK)) (rb : ReqBody) (ct : Str) (b : BodyIn) : Bool :=
   match formRun reg rb ct b with
-  | some (s, encs, fields) => formUnparsable fields encs s.props
+  | some (s, encs, fields) => formUnparsable fields encs (flatDecls s)
   | none => false
 
 def formEncsWF (reg : List (Str × DecK)) (rb : ReqBody) (ct : Str) (b : BodyIn) : Bool :=
   match formRun reg rb ct b with
-  | some (s, encs, _) => encsWF encs s.props
+  | some (s, encs, _) => encsWF encs (flatDecls s)
   | none => true
 
 /-- the value handed to the schema validator, when validation gets that far -/
